@@ -27,6 +27,7 @@ func init() {
 			{ID: "C19.R7", Text: "the checker runs ⇔ it is enabled, and is stopped by close: the client's start and close paths call by call: the stream is opened, the listener subscribed (failure fatal), each optional component started and stopped under exactly its configuration switch (polarity included), Commit is Stream.Save, SetMetadata installs the supplied store, newDcp applies the defaults first and returns every error", Run: clientWiring},
 			{ID: "C19.R8", Text: "nothing the checker starts outlives or blocks Stop: every background loop has a stop that the close path reaches (same rule as C13.R3)", Run: c13r3},
 			{ID: "C19.R9", Text: "the fifth failure terminates the process: no recover() anywhere in the module (same rule as C15.R23)", Run: neverRecovers},
+			{ID: "C19.R12", Text: "what counts as an answered ping: the endpoint pickers of the Ping callback hand out an entry's address only after seeing its Error nil and its State PingStateOK, and the empty string otherwise — a node that refused, timed out or is degraded does not count as healthy", Run: endpointsAreHealthy},
 			{ID: "C19.R4", Text: "what counts as a failed ping: Client.Ping reports an error unless both the data and the management service answered (same rule as C20.R5)", Run: pingOutcome},
 			{ID: "C19.R3", Text: "Start/Stop entirely inside Once.Do; wg.Add(1) before go run; run defers wg.Done; Stop = cancel then wg.Wait; Once fields never reassigned", Run: c19r3},
 		},
@@ -41,7 +42,7 @@ func c19r1(c *Ctx, id string) {
 	pings := map[*State]int{}
 	selName := "select@" + fname(fn)
 	const maxAttempts = 7
-	h := &Harness{Fn: fn, Choices: map[string]int{"pattern": 1 << maxAttempts, "cancelAt": maxAttempts}, Quiet: quietLog, MaxSteps: 6000,
+	h := &Harness{Fn: fn, Choices: map[string]int{"pattern": 1 << maxAttempts, "cancelAt": maxAttempts}, Quiet: quietLog, MaxSteps: 6000, Args: bundleArgs(w, fn),
 		// only patterns whose outcome is decided within the first 5 attempts, plus the all-fail tails, need distinct states:
 		Valid: func(st *State) bool { return st.C("pattern") < 1<<5 || st.C("pattern") == 1<<maxAttempts-1 },
 		Oracle: func(st *State, name string, args []AV, res *types.Tuple) ([]AV, bool) {
